@@ -188,6 +188,13 @@ Definition gene_to_dict (T : tables) (g : agene) : result jval :=
   opt <- update_optional (gene_getattr g) (t_opt_gene_defaults T) (t_opt_gene_keys T) ;;
   Ok (JDict (req ++ opt)).
 
+(* an infinite (or nan) bound is saved as str(float) *)
+Definition save_bound (v : jval) : jval :=
+  match v with
+  | JInf neg => JStr (if neg then s_neg_inf else s_inf)
+  | _ => fix_type v
+  end.
+
 (* the loop over _REQUIRED_REACTION_ATTRIBUTES: "metabolites" sorted by metabolite id, infinite
    bounds as str(float), everything else through _fix_type *)
 Fixpoint rxn_required (r : arxn) (keys : list str) : result (list (str * jval)) :=
@@ -198,11 +205,7 @@ Fixpoint rxn_required (r : arxn) (keys : list str) : result (list (str * jval)) 
                else match rxn_getattr r k with
                     | None => Err EAttr
                     | Some v =>
-                        if str_eqb k k_lower_bound || str_eqb k k_upper_bound then
-                          match v with
-                          | JInf neg => Ok (k, JStr (if neg then s_neg_inf else s_inf))
-                          | _ => Ok (k, fix_type v)
-                          end
+                        if str_eqb k k_lower_bound || str_eqb k k_upper_bound then Ok (k, save_bound v)
                         else Ok (k, fix_type v)
                     end) ;;
       rest <- rxn_required r ks ;;
@@ -216,8 +219,8 @@ Definition rxn_to_dict (T : tables) (r : arxn) : result jval :=
 
 (* Model.compartments (the public property): compartments of the metabolites, in order of first
    occurrence, with the stored description or "" *)
-Fixpoint public_comps_from (comps : list (str * str)) (mets : list amet) (acc : list (str * jval))
-  : list (str * jval) :=
+Fixpoint public_comps_from (comps : list (str * str)) (mets : list amet) (acc : list (str * str))
+  : list (str * str) :=
   match mets with
   | [] => acc
   | m :: ms =>
@@ -226,14 +229,15 @@ Fixpoint public_comps_from (comps : list (str * str)) (mets : list amet) (acc : 
       | Some c =>
           if has_key c acc then public_comps_from comps ms acc
           else public_comps_from comps ms
-                 (acc ++ [(c, JStr (match lookup c comps with Some d => d | None => [] end))])
+                 (acc ++ [(c, match lookup c comps with Some d => d | None => [] end)])
       end
   end.
-Definition public_comps (m : amodel) : list (str * jval) := public_comps_from (a_comps m) (a_mets m) [].
+Definition public_comps (m : amodel) : list (str * str) := public_comps_from (a_comps m) (a_mets m) [].
+Definition comps_val (l : list (str * str)) : jval := JDict (map (fun p => (fst p, JStr (snd p))) l).
 
 Definition model_getattr (m : amodel) (k : str) : option jval :=
   if str_eqb k k_name then Some (opt_str (a_name m))
-  else if str_eqb k k_compartments then Some (JDict (public_comps m))
+  else if str_eqb k k_compartments then Some (comps_val (public_comps m))
   else if str_eqb k k_notes then Some (JDict (a_notes m))
   else if str_eqb k k_annotation then Some (JDict (a_annot m))
   else None.
@@ -369,6 +373,26 @@ Definition set_r_bounds (r : arxn) (lb ub : ebound) : arxn :=
 
 Definition default_rxn (c : cfg) : arxn := mkRxn [] [] [] (Fin 0) (Fin (c_ub c)) [] 0 [] [] [].
 
+(* the "metabolites" item: model.metabolites.get_by_id for every key, then Reaction.add_metabolites
+   on an empty reaction (zero coefficients are dropped again) *)
+Definition load_stoich (met_ids : list str) (v : jval) : result (list (str * Q)) :=
+  d <- as_dict v ;;
+  st <- parse_stoich met_ids d ;;
+  Ok (dsort (filter (fun p => negb (q_is_zero (snd p))) st)).
+
+(* reaction.lower_bound = float(v) / reaction.upper_bound = float(v) *)
+Definition set_lb (r : arxn) (v : jval) : result arxn :=
+  b <- py_float v ;; _ <- check_bounds b (r_ub r) ;; Ok (set_r_bounds r b (r_ub r)).
+Definition set_ub (r : arxn) (v : jval) : result arxn :=
+  b <- py_float v ;; _ <- check_bounds (r_lb r) b ;; Ok (set_r_bounds r (r_lb r) b).
+
+(* reaction.bounds = (float(d.get("lower_bound", default)), float(d.get("upper_bound", default))) *)
+Definition init_bounds (c : cfg) (d : dict) : result arxn :=
+  lb <- (match lookup k_lower_bound d with Some x => py_float x | None => Ok (Fin 0) end) ;;
+  ub <- (match lookup k_upper_bound d with Some x => py_float x | None => Ok (Fin (c_ub c)) end) ;;
+  _ <- check_bounds lb ub ;;
+  Ok (set_r_bounds (default_rxn c) lb ub).
+
 Section Load.
   Variable G : gpr_api.
   Variable T : tables.
@@ -378,17 +402,12 @@ Section Load.
     let (k, v) := kv in
     if str_mem k (t_rxn_skip T) then Ok r
     else if str_eqb k k_metabolites then
-      d <- as_dict v ;;
-      st <- parse_stoich met_ids d ;;
-      (* Reaction.add_metabolites on an empty reaction: zero coefficients are dropped again *)
-      Ok (mkRxn (r_id r) (r_name r) (dsort (filter (fun p => negb (q_is_zero (snd p))) st))
-                (r_lb r) (r_ub r) (r_rule r) (r_obj r) (r_subsystem r) (r_notes r) (r_annot r))
+      st <- load_stoich met_ids v ;;
+      Ok (mkRxn (r_id r) (r_name r) st (r_lb r) (r_ub r) (r_rule r) (r_obj r) (r_subsystem r) (r_notes r) (r_annot r))
     else if str_eqb k k_lower_bound then
-      if t_bounds_at_once T then Ok r else
-      b <- py_float v ;; _ <- check_bounds b (r_ub r) ;; Ok (set_r_bounds r b (r_ub r))
+      if t_bounds_at_once T then Ok r else set_lb r v
     else if str_eqb k k_upper_bound then
-      if t_bounds_at_once T then Ok r else
-      b <- py_float v ;; _ <- check_bounds (r_lb r) b ;; Ok (set_r_bounds r (r_lb r) b)
+      if t_bounds_at_once T then Ok r else set_ub r v
     else if str_eqb k k_id then
       s <- (match v with JStr s => Ok s | JNull => Err EUnmodelled | _ => Err EType end) ;;
       Ok (mkRxn s (r_name r) (r_stoich r) (r_lb r) (r_ub r) (r_rule r) (r_obj r) (r_subsystem r) (r_notes r) (r_annot r))
@@ -420,12 +439,7 @@ Section Load.
   (* _reaction_from_dict (the objective coefficient, applied later by set_objective, is carried along) *)
   Definition rxn_from_dict (met_ids : list str) (v : jval) : result arxn :=
     d <- as_dict v ;;
-    r0 <- (if t_bounds_at_once T then
-             lb <- (match lookup k_lower_bound d with Some x => py_float x | None => Ok (Fin 0) end) ;;
-             ub <- (match lookup k_upper_bound d with Some x => py_float x | None => Ok (Fin (c_ub C)) end) ;;
-             _ <- check_bounds lb ub ;;
-             Ok (set_r_bounds (default_rxn C) lb ub)
-           else Ok (default_rxn C)) ;;
+    r0 <- (if t_bounds_at_once T then init_bounds C d else Ok (default_rxn C)) ;;
     r <- foldM (rxn_setattr met_ids) d r0 ;;
     _ <- (if has_key k_id d then Ok tt else Err EUnmodelled) ;;
     Ok r.
@@ -459,6 +473,10 @@ Section Load.
     | _ => Err EUnmodelled
     end.
 
+  (* model.compartments = v on a fresh model: _compartments.update(v) *)
+  Definition load_comps (v : jval) : result (list (str * str)) :=
+    d <- as_dict v ;; cs <- comps_of d ;; Ok (dsort cs).
+
   Definition model_setattr (m : amodel) (kv : str * jval) : result amodel :=
     let (k, v) := kv in
     if negb (str_mem k (t_model_attrs T)) then Ok m
@@ -472,8 +490,8 @@ Section Load.
       d <- as_notes v ;;
       Ok (mkModel (a_id m) (a_name m) (a_mets m) (a_rxns m) (a_genes m) (a_comps m) d (a_annot m) (a_max m))
     else if str_eqb k k_compartments then
-      d <- as_dict v ;; cs <- comps_of d ;;
-      Ok (mkModel (a_id m) (a_name m) (a_mets m) (a_rxns m) (a_genes m) (dsort cs) (a_notes m) (a_annot m) (a_max m))
+      cs <- load_comps v ;;
+      Ok (mkModel (a_id m) (a_name m) (a_mets m) (a_rxns m) (a_genes m) cs (a_notes m) (a_annot m) (a_max m))
     else if str_eqb k k_annotation then
       d <- as_annotation v ;;
       Ok (mkModel (a_id m) (a_name m) (a_mets m) (a_rxns m) (a_genes m) (a_comps m) (a_notes m) d (a_max m))
